@@ -78,7 +78,7 @@ def history_item(rng, counters):
     from pv.monitors import InjectedFault
     from pv.checks.c16 import nofinite_models
     kind = rng.choice(["solved", "solved", "built_only", "solved_twice", "nofinite", "failpoint", "failpoint",
-                       "nested_pep", "orphans", "null_eval", "example", "scs_default", "verbose2"])
+                       "nested_pep", "orphans", "null_eval", "example", "scs_default", "verbose2", "bad_constructor", "bad_solve_option"])
     buf = io.StringIO()
     with contextlib.redirect_stdout(buf), warnings.catch_warnings():
         warnings.simplefilter("ignore")
@@ -141,6 +141,33 @@ def history_item(rng, counters):
             elif kind == "orphans":
                 from pv.fresh import make_orphans
                 make_orphans(rng)
+            elif kind == "bad_constructor":
+                # a model abandoned because a constructor refused its arguments (each attempt raises; whatever the constructor
+                # had registered before raising stays behind)
+                from PEPit import PEP, Point, Expression, PSDMatrix
+                from PEPit.function import Function
+                from PEPit.functions import SmoothConvexFunction, SmoothStronglyConvexFunction
+                from PEPit.operators import LinearOperator
+                pep = PEP()
+                f1 = pep.declare_function(SmoothConvexFunction, L=1.)
+                f2 = pep.declare_function(SmoothConvexFunction, L=2.)
+                x = pep.set_initial_point()
+                attempts = [lambda: Function(decomposition_dict={f1: 1., f2: 1.}), lambda: Function(is_leaf=False),
+                            lambda: Point(decomposition_dict={x: 1.}), lambda: Point(is_leaf=False),
+                            lambda: Expression(decomposition_dict={(x, x): 1.}), lambda: Expression(is_leaf=False),
+                            lambda: pep.declare_function(SmoothStronglyConvexFunction, L=1.),
+                            lambda: pep.declare_function(LinearOperator), lambda: PSDMatrix([[x ** 2, 1.], [1.]]),
+                            lambda: pep.declare_block_partition(d=0), lambda: f1.gradient("x"), lambda: f1.add_point((x, x))]
+                for k_ in rng.sample(range(len(attempts)), rng.randint(1, 4)):
+                    try:
+                        attempts[k_]()
+                    except Exception:
+                        pass
+            elif kind == "bad_solve_option":
+                prog = gen.gen_program(rng)
+                m = gen.Machine().run(prog["ops"])
+                m.do_solve(rng.choice([{"verbose": 0, "solver": "NOT_A_SOLVER"}, {"verbose": 0, "solver": "CLARABEL", "return_primal_or_dual": "both"},
+                                       {"verbose": 0, "solver": "CLARABEL", "dimension_reduction_heuristic": "foo"}]))
             elif kind == "example":
                 import importlib
                 mod, fn, kw = rng.choice(EXAMPLES)
